@@ -142,6 +142,17 @@ impl Property for C13 {
             1 => "[\\x00-\\x1f]{1,3}",
             1 => "(de|en|es|fr|it|nl|pt)[a-z]{2,5}",
             1 => "[éèüßñçøж日]{1,3}",
+            // two-character strings whose code points equal a language code modulo 256 / modulo 128 (what a
+            // lookup that truncates characters to bytes would see), and full-width / accented look-alikes
+            2 => (0usize..7, 1u32..200, 0u32..200, 0u8..3).prop_map(|(i, k1, k2, m)| {
+                let code = LANGS[i].as_bytes();
+                let f = |b: u8, k: u32| char::from_u32(b as u32 + 256 * k).unwrap_or('¤');
+                match m {
+                    0 => format!("{}{}", f(code[0], k1), f(code[1], k2)),
+                    1 => format!("{}{}", code[0] as char, f(code[1], k2.max(1))),
+                    _ => format!("{}{}", char::from_u32(0xFF00 + code[0] as u32 - 0x20).unwrap(), char::from_u32(0xFF00 + code[1] as u32 - 0x20).unwrap()),
+                }
+            }),
             // words a careless lookup might accept: language names (English and native), none is a code
             2 => (0usize..26).prop_map(|i| ["english", "german", "deutsch", "french", "français", "francais", "spanish", "español", "espanol", "italian", "italiano", "dutch", "nederlands", "portuguese", "português", "portugues", "English", "Deutsch", "FRENCH", "castellano", "flemish", "brazilian", "latin", "esperanto", "klingon", "language"][i].to_string()),
         ];
